@@ -32,7 +32,7 @@ def run(ctx):
     from vlib import evalimpl
     from ahbicht.expressions.condition_expression_parser import parse_condition_expression_to_tree
 
-    built = prepare(ctx, ["Gen_logic", "Gen_ranges", "Gen_grammar"], ["Props/C08.vo", "Corr/Eval.vo"])
+    built = prepare(ctx, ["Gen_logic", "Gen_ranges", "Gen_grammar", "Gen_fcmsg"], ["Props/C08.vo", "Corr/Eval.vo"])
     # several truth assignments in flight at once on ahbicht's own content-evaluation-result based evaluators (implementation-side oracle)
     from vlib import cerconc
 
